@@ -115,6 +115,19 @@ pub fn run(tier: Tier) -> i32 {
                             });
                         }
                     }
+                    // French: an article and a noun in front of an ordinal whose first word is the ambiguous 'neuf'
+                    // (neuf centième, neuf millième ...): the next word being a number word, 'neuf' is the number
+                    if l == L::Fr && plain_frame_ok && f.text.starts_with("neuf ") {
+                        for pre in ["le xyzzy ", "du xyzzy ", "un xyzzy plugh "] {
+                            acc.traces += 1;
+                            let s = format!("{pre}{} plugh", f.text);
+                            let exp = format!("{}{want} plugh", pre.replace("un ", "1 "));
+                            let got = guard(|| replace_numbers_in_text(&s, &lang, 0.0)).unwrap_or_else(|p| p);
+                            if got != exp {
+                                ctx.report(acc, Violation { lang: l.code().into(), entry: "replace_text".into(), input: s, threshold: Some(0.0), clause: format!("rewrite(article noun ordinal(n), {}): 'neuf' followed by a number word is the number", f.infl), expected: exp, observed: got });
+                            }
+                        }
+                    }
                     // two more frames for the smaller ranks: the ordinal followed by the decimal-separator word and a
                     // digit (an ordinal is not the integral part of a decimal), and the ordinal spoken after a pause
                     // that follows another number (token stream, first word of the ordinal flagged 'unrelated')
